@@ -3,6 +3,20 @@ import ApdVerif.Lemmas.C09Lemmas
 /-!
 # C09 — Quantize and RoundToIntegral produce the requested exponent, correctly rounded
 -/
+namespace Apd
+
+/-- well-formed context for Quantize: as `Ctx.WF` but without `Precision ≤ MaxExponent` -/
+def Ctx.WFq (c : Ctx) : Prop :=
+  1 ≤ c.prec ∧ 0 ≤ c.emax ∧ c.emax ≤ 100000 ∧ -100000 ≤ c.emin ∧ c.emin ≤ 0
+
+instance (c : Ctx) : Decidable c.WFq := by unfold Ctx.WFq; exact inferInstance
+
+theorem Ctx.WF.toWFq {c : Ctx} (h : c.WF) : c.WFq := by
+  obtain ⟨c1, c2, c3, c4, c5⟩ := h
+  exact ⟨c1, by omega, c3, c4, c5⟩
+
+end Apd
+
 namespace Apd.Props
 open Apd Apd.Oracle Apd.C09L
 
@@ -28,10 +42,11 @@ theorem quantizeOp_eq (c : Ctx) (x : Dec) (hx : x.form = .finite) (e : Int) :
   simp only [hnan, hinf, Bool.false_or, Bool.or_eq_true, decide_eq_true_eq]
   rw [if_neg (by simp)]
 
-theorem quantize_main (c : Ctx) (hc : c.WF) (x : Dec) (hx : x.form = .finite) (e : Int)
+theorem quantize_main (c : Ctx) (hc : c.WFq) (x : Dec) (hx : x.form = .finite) (e : Int)
     (he : -100000 ≤ e ∧ e ≤ 100000) (hgap : x.exp - e ≤ 100000)
     (hgap2 : (ndigits x.coeff : Int) < e - x.exp ∨ e - x.exp < 100000 ∨
-      (e - x.exp = 100000 ∧ ndigits (quantSpec c x e).1 ≤ ndigits (x.coeff / 10 ^ 100000))) :
+      (e - x.exp = 100000 ∧ ndigits (quantSpec c x e).1 ≤ ndigits (x.coeff / 10 ^ 100000)))
+    (hprec : c.prec ≤ 100001 ∨ ndigits (quantSpec c x e).1 ≤ 100001) :
     if e < c.emin - (c.prec : Int) + 1 ∨ e > c.emax ∨ ndigits (quantSpec c x e).1 > c.prec ∨
         ((quantSpec c x e).1 ≠ 0 ∧ e + (ndigits (quantSpec c x e).1 : Int) - 1 > c.emax) then
       quantizeOp c x e = invalidNaN c
@@ -42,17 +57,17 @@ theorem quantize_main (c : Ctx) (hc : c.WF) (x : Dec) (hx : x.form = .finite) (e
       (quantizeOp c x e).fl.underflow = false ∧ (quantizeOp c x e).fl.overflow = false ∧
       (quantizeOp c x e).fl.invalidOp = false ∧
       (quantizeOp c x e).fl.sysOverflow = false ∧ (quantizeOp c x e).fl.sysUnderflow = false := by
-  have hc' := hc
-  obtain ⟨c1, c2, c3, c4, c5⟩ := hc'
+  obtain ⟨c1, c0, c3, c4, c5⟩ := hc
   rw [quantizeOp_eq c x hx e]
   by_cases h1 : e < c.emin - (c.prec : Int) + 1
   · rw [if_pos (Or.inl h1), if_pos h1]
-  · have key := quantizeCore_spec c x hx e (by omega) c3 hgap hgap2
+  · have key := quantizeCore_spec c x hx e hgap hgap2
     change QGood x e (quantSpec c x e) (quantizeCore c x e) ∨
-      ((ndigits (quantSpec c x e).1 : Int) - 1 > c.emax ∧
-        (ndigits (quantizeCore c x e).1.coeff : Int) > c.emax) at key
+      ((quantizeCore c x e).2.overflow = true ∧
+        ((ndigits (quantSpec c x e).1 : Int) - 1 > 100000 ∨
+         ((quantSpec c x e).1 ≠ 0 ∧ e + (ndigits (quantSpec c x e).1 : Int) - 1 > c.emax))) at key
     generalize quantizeCore c x e = q at key ⊢
-    generalize quantSpec c x e = R at key ⊢
+    generalize quantSpec c x e = R at key hprec ⊢
     rw [if_neg h1]
     rcases key with ⟨g1, g2, g3, g4, g5, g6, g7, g8, g9⟩ | ⟨b1, b2⟩
     · obtain ⟨q1, q2⟩ := q
@@ -63,7 +78,7 @@ theorem quantize_main (c : Ctx) (hc : c.WF) (x : Dec) (hx : x.form = .finite) (e
       · have hcond : e < c.emin - (c.prec : Int) + 1 ∨ e > c.emax ∨ ndigits R.1 > c.prec ∨
             (R.1 ≠ 0 ∧ e + (ndigits R.1 : Int) - 1 > c.emax) := by omega
         rw [if_pos hcond, if_pos (by omega)]
-      · have fit := ctxRound_fit c hc { x with coeff := R.1, exp := e } hx (by simp only []; omega)
+      · have fit := ctxRound_fit c c1 c0 c3 c4 c5 { x with coeff := R.1, exp := e } hx (by simp only []; omega)
           (by simp only []; omega) (by simp only []; omega) (by simp only []; omega)
         rw [← ctxRound_finite c { x with coeff := R.1, exp := e } hx] at fit
         simp only [] at fit
@@ -80,7 +95,12 @@ theorem quantize_main (c : Ctx) (hc : c.WF) (x : Dec) (hx : x.form = .finite) (e
           simp only [hx] at t2 t3 t4 t5 t6 t7
           simp [finish, hx, g2, g4, g5, g6, g7, g8, t2, t3, t4, t5, t6, t7]
           exact fun h => Or.inl (g3 h)
-    · rw [if_pos (Or.inr (Or.inr (Or.inl (by omega)))), if_pos (Or.inl (by omega))]
+    · have hcond : e < c.emin - (c.prec : Int) + 1 ∨ e > c.emax ∨ ndigits R.1 > c.prec ∨
+          (R.1 ≠ 0 ∧ e + (ndigits R.1 : Int) - 1 > c.emax) := by omega
+      rw [if_pos hcond]
+      by_cases h2 : (ndigits q.1.coeff : Int) > (c.prec : Int) ∨ e > c.emax
+      · rw [if_pos h2]
+      · rw [if_neg h2, if_pos (Or.inl (by simp [b1]))]
 
 /- ORIGINAL STATEMENT (false, see the counterexamples below and in the report):
 theorem C09_quantize (c : Ctx) (hc : c.WF) (x : Dec) (hx : x.form = .finite) (hxw : x.WF) (e : Int)
@@ -118,7 +138,7 @@ theorem C09_quantize_partial (c : Ctx) (hc : c.WF) (x : Dec) (hx : x.form = .fin
       o.fl.underflow = false ∧ o.fl.overflow = false ∧ o.fl.invalidOp = false ∧
       o.fl.sysOverflow = false ∧ o.fl.sysUnderflow = false := by
   intro o r etiny
-  have main := quantize_main c hc x hx e he hgap hgap2
+  have main := quantize_main c hc.toWFq x hx e he hgap hgap2 (Or.inl (by have := hc.2.1; have := hc.2.2.1; omega))
   by_cases hcond : e < etiny ∨ e > c.emax ∨ ndigits r.1 > c.prec ∨ (r.1 ≠ 0 ∧ e + (ndigits r.1 : Int) - 1 > c.emax)
   · rw [if_pos hcond]
     rw [if_pos hcond] at main
@@ -126,6 +146,58 @@ theorem C09_quantize_partial (c : Ctx) (hc : c.WF) (x : Dec) (hx : x.form = .fin
   · rw [if_neg hcond]
     rw [if_neg hcond] at main
     exact main
+
+/- REQUESTED STATEMENT `C09_quantize_allctx` (exactly `C09_quantize_partial` with `hc : c.WFq`): false when
+   Precision exceeds 100001.  Counterexample (checked with #eval, scratch/Cex2.lean):
+     c = {prec := 100002, emax := 100000, emin := -100000, mode := halfUp},
+     x = 10^100002 · 10^-100000 (100003 digits, x.WF holds), e = -99999 (one digit dropped).
+   The specification's coefficient 10^100001 has 100002 ≤ prec digits and e + 100002 - 1 = 2 ≤ emax, so the
+   finite branch applies; in the model the frame's adjusted exponent 100001 exceeds the *package* limit
+   MaxExponent, Round raises SystemOverflow and Quantize returns NaN/InvalidOperation.
+   The variant below adds `hprec`: Precision ≤ 100001, or the result has at most 100001 digits.  Everything
+   about `prec` versus `emax` is unrestricted. -/
+theorem C09_quantize_allctx_partial (c : Ctx) (hc : c.WFq) (x : Dec) (hx : x.form = .finite) (hxw : x.WF)
+    (e : Int) (he : -100000 ≤ e ∧ e ≤ 100000) (hgap : x.exp - e ≤ 100000)
+    (hgap2 : (ndigits x.coeff : Int) < e - x.exp ∨ e - x.exp < 100000 ∨
+      (e - x.exp = 100000 ∧ ndigits (quantSpec c x e).1 ≤ ndigits (x.coeff / 10 ^ 100000)))
+    (hprec : c.prec ≤ 100001 ∨ ndigits (quantSpec c x e).1 ≤ 100001) :
+    let o := quantizeOp c x e
+    let r := quantSpec c x e
+    let etiny : Int := c.emin - (c.prec : Int) + 1
+    if e < etiny ∨ e > c.emax ∨ ndigits r.1 > c.prec ∨ (r.1 ≠ 0 ∧ e + (ndigits r.1 : Int) - 1 > c.emax) then
+      o.d = decNaN ∧ o.fl = Cond.cInvalidOp ∧ o.err = goError c.traps Cond.cInvalidOp
+    else
+      o.d = { form := .finite, neg := x.neg, exp := e, coeff := r.1 } ∧
+      o.fl.inexact = r.2 ∧ (r.2 = true → o.fl.rounded = true) ∧
+      o.fl.underflow = false ∧ o.fl.overflow = false ∧ o.fl.invalidOp = false ∧
+      o.fl.sysOverflow = false ∧ o.fl.sysUnderflow = false := by
+  intro o r etiny
+  have main := quantize_main c hc x hx e he hgap hgap2 hprec
+  by_cases hcond : e < etiny ∨ e > c.emax ∨ ndigits r.1 > c.prec ∨ (r.1 ≠ 0 ∧ e + (ndigits r.1 : Int) - 1 > c.emax)
+  · rw [if_pos hcond]
+    rw [if_pos hcond] at main
+    simp only [o, main, invalidNaN, and_self]
+  · rw [if_neg hcond]
+    rw [if_neg hcond] at main
+    exact main
+
+/-- the requested `C09_quantize_allctx` statement, for every context with `Precision ≤ 100001` (in particular every
+context with `Precision > MaxExponent + 1`, which the `WF` version excludes) -/
+theorem C09_quantize_allctx_prec (c : Ctx) (hc : c.WFq) (hp : c.prec ≤ 100001) (x : Dec) (hx : x.form = .finite)
+    (hxw : x.WF) (e : Int) (he : -100000 ≤ e ∧ e ≤ 100000) (hgap : x.exp - e ≤ 100000)
+    (hgap2 : (ndigits x.coeff : Int) < e - x.exp ∨ e - x.exp < 100000 ∨
+      (e - x.exp = 100000 ∧ ndigits (quantSpec c x e).1 ≤ ndigits (x.coeff / 10 ^ 100000))) :
+    let o := quantizeOp c x e
+    let r := quantSpec c x e
+    let etiny : Int := c.emin - (c.prec : Int) + 1
+    if e < etiny ∨ e > c.emax ∨ ndigits r.1 > c.prec ∨ (r.1 ≠ 0 ∧ e + (ndigits r.1 : Int) - 1 > c.emax) then
+      o.d = decNaN ∧ o.fl = Cond.cInvalidOp ∧ o.err = goError c.traps Cond.cInvalidOp
+    else
+      o.d = { form := .finite, neg := x.neg, exp := e, coeff := r.1 } ∧
+      o.fl.inexact = r.2 ∧ (r.2 = true → o.fl.rounded = true) ∧
+      o.fl.underflow = false ∧ o.fl.overflow = false ∧ o.fl.invalidOp = false ∧
+      o.fl.sysOverflow = false ∧ o.fl.sysUnderflow = false :=
+  C09_quantize_allctx_partial c hc x hx hxw e he hgap hgap2 (Or.inl hp)
 
 /-- the complement of `hgap2`: when at least 100000 digits are discarded (and not all of them), with a
 carry in the boundary case of exactly 100000, the model's Quantize hits a system limit inside `Round` and
@@ -180,13 +252,14 @@ theorem C09_rtie_partial (c : Ctx) (hc : c.WF) (x : Dec) (hx : x.form = .finite)
   intro o r
   obtain ⟨c1, c2, c3, c4, c5⟩ := hc
   obtain ⟨w1, w2, w3, w4⟩ := hxw
-  have key := quantizeCore_spec c x hx 0 (by omega) c3 (by omega) (by
+  have key := quantizeCore_spec c x hx 0 (by omega) (by
     rcases hgap2 with h | h | h
     · left; omega
     · right; left; omega
     · right; right; exact ⟨by omega, h.2⟩)
   change QGood x 0 r (quantizeCore c x 0) ∨
-      ((ndigits r.1 : Int) - 1 > c.emax ∧ (ndigits (quantizeCore c x 0).1.coeff : Int) > c.emax) at key
+      ((quantizeCore c x 0).2.overflow = true ∧
+        ((ndigits r.1 : Int) - 1 > 100000 ∨ (r.1 ≠ 0 ∧ 0 + (ndigits r.1 : Int) - 1 > c.emax))) at key
   have ho : o = finish c (quantizeCore c x 0) := by
     simp only [o, roundToIntegralExactOp, toIntegralSpecials_finite c x hx]
   rcases key with ⟨g1, g2, g3, g4, g5, g6, g7, g8, g9⟩ | ⟨b1, b2⟩
@@ -294,8 +367,19 @@ example : (quantizeOp { prec := 9, emax := 99, emin := -99, mode := .up } { coef
 example : (quantizeOp { prec := 9, emax := 99, emin := 0, mode := .halfUp } { coeff := 7, exp := -1 } 0).d
     = { coeff := 1, exp := 0 } := by decide
 
+/-- non-vacuity of `C09_quantize_allctx`: Precision 9 > MaxExponent + 1 = 4; 123.4567891 quantized to
+exponent -5 is 123.45679 (8 digits, adjusted exponent 2 ≤ 3); the old model returned NaN here. -/
+example : ({ prec := 9, emax := 3, emin := -3, mode := .halfUp } : Ctx).WFq ∧
+    ¬ ({ prec := 9, emax := 3, emin := -3, mode := .halfUp } : Ctx).WF := by decide
+example : (quantizeOp { prec := 9, emax := 3, emin := -3, mode := .halfUp }
+      { coeff := 1234567891, exp := -7 } (-5)).d = { coeff := 12345679, exp := -5 } := by decide
+example : quantSpec { prec := 9, emax := 3, emin := -3, mode := .halfUp }
+      { coeff := 1234567891, exp := -7 } (-5) = (12345679, true) := by decide
+
 end Apd.Props
 
+#print axioms Apd.Props.C09_quantize_allctx_partial
+#print axioms Apd.Props.C09_quantize_allctx_prec
 #print axioms Apd.Props.C09_quantize_partial
 #print axioms Apd.Props.C09_quantize_syslimit
 #print axioms Apd.Props.C09_rtie_partial
